@@ -382,6 +382,11 @@ fn shift_ids(fsm: &mut Fsm, off: u32) {
 fn roundtrip_model(rep: &mut Report, name: &str, xml: &str, fsm: &Fsm, variant: &str) -> Option<Box<Fsm>> {
     rep.evaluations += 1;
     let want = dump(fsm, &CanonOpts { for_roundtrip: true });
+    crate::report::progress(
+        "process-death:writing-and-reading-back-a-model",
+        &format!("the process died while model {} ({}) was written and read back", name, variant),
+        &json!({"model": name, "variant": variant, "xml": xml}),
+    );
     let img = match write_model(fsm, WriteFault::None) {
         Ok(w) => w,
         Err(p) => {
@@ -411,6 +416,11 @@ fn roundtrip_model(rep: &mut Report, name: &str, xml: &str, fsm: &Fsm, variant: 
             let caps: &[usize] = if variant == "plain" { &[5, 61, 509] } else { &[127] };
             for cap in caps {
                 rep.evaluations += 1;
+                crate::report::progress(
+                    "process-death:reading-a-valid-image-through-a-buffered-stream",
+                    &format!("the process died while the complete image of model {} ({}) was read through BufReader({})", name, variant, cap),
+                    &json!({"model": name, "variant": variant, "xml": xml, "stream": format!("BufReader({})", cap)}),
+                );
                 let outcome = read_model(std::io::BufReader::with_capacity(*cap, &img.bytes[..]));
                 judge_stream_read(rep, outcome, &want, name, variant, xml, &format!("BufReader({})", cap));
             }
